@@ -711,6 +711,10 @@ def mig_post(c, p):
         old = PREV + "@Some.0.1"
         conj.append(eq(rd(old + ".%d#discr" % ch, I64), bv(1)))
         conj.append(rd(old + ".%d" % pend, BOOL))
+        # the two challenges are independent draws from the RNG: an answer to the one sent to the old address must not
+        # validate the new (possibly spoofed) one (C07)
+        if rd(old + ".%d@Some.0" % ch, BV64) == rd(PATH + ".%d@Some.0" % ch, BV64):
+            return "false"
         for f in ("total_sent", "total_recvd"):
             conj.append(eq(rd(old + ".%d" % _pd(c, f), BV64), c.inp(PATH + ".%d" % _pd(c, f), BV64)))
         conj.append(eq(rd(old + ".%d" % _pd(c, "validated"), BOOL), c.inp(PATH + ".%d" % _pd(c, "validated"), BOOL)))
@@ -720,7 +724,7 @@ def mig_post(c, p):
     return and_(*conj)
 
 
-Q(name="e2_migrate", props=["C15", "C13"], func=r"connection/mod\.rs:\d+:1: \d+:16>::migrate$",
+Q(name="e2_migrate", props=["C15", "C13", "C07"], func=r"connection/mod\.rs:\d+:1: \d+:16>::migrate$",
   pure=[r"PathData::new$", r"PathData::from_previous$", r"CidQueue::active$", r"Connection::pto$", r"into_inner$"],
   allowed_panics=r"expect_failed|attempt to",
   functions=["Connection::migrate"], pre=mig_pre, post=mig_post,
@@ -3008,3 +3012,28 @@ Q(name="e2_dgram_received_bounds", props=["C03", "C06", "C16"], func=r"datagrams
   functions=["DatagramState::received (one iteration of each of its drop loops)"], pre=lambda c: "true", post=dr_post,
   bounds="from an ARBITRARY queue state (any number of queued datagrams and buffered bytes): a datagram is refused exactly when receiving is disabled or it is larger than the window; it is appended only when, at that moment, buffered bytes + its length <= window AND the number of queued datagrams <= window (so the queue never holds more than window + 1 elements - datagrams without payload included - and never more than window bytes); each loop iteration drops exactly one datagram through recv() (oldest first) and only while one of the two bounds is exceeded; VecDeque::len read as the deque's length field",
   replay=("dgram_received_count_native", lambda m: [dict(window=0, n=5), dict(window=2, n=50), dict(window=100, n=500)]))
+
+
+# ------------------------------------------------------------------ C04: a packet can only hurt the connection after it has authenticated
+def dpa_post(c, p):
+    st = p.p.state
+    if p.p.outcome != "return":
+        return "true"
+    dec = p.called(r"PacketKey>::decrypt$")
+    fatal = and_(eq(c.ex.read_key(st, "_0#discr", I64).t, bv(1)), eq(c.ex.read_key(st, "_0@Err.0#discr", I64).t, bv(1)))   # Err(Some(transport error))
+    accepted = and_(eq(c.ex.read_key(st, "_0#discr", I64).t, bv(0)), eq(c.ex.read_key(st, "_0@Ok.0#discr", I64).t, bv(1)))
+    if not dec:
+        # nothing was authenticated on this path: the packet is dropped silently (Err(None)) or was not protected at all (Ok(None))
+        return and_(not_(fatal), not_(accepted))
+    if len(dec) != 1:
+        return "false"
+    authentic = eq(c.ex.read_key(st, dec[0][2] + "#discr", I64).t, bv(0))
+    return or_(authentic, and_(not_(fatal), not_(accepted)))
+
+
+Q(name="e2_decrypt_packet_body_authentic_first", props=["C04", "C03"], func=r"^decrypt_packet_body$",
+  pure=[r"Header::space$", r"Header::number$", r"PacketNumber::expand$", r"key_phase$", r"is_0rtt$", r"is_protected$", r"reserved_bits_valid$", r"Index<SpaceId>>::index$"],
+  allowed_panics=r"attempt to|unwrap_failed|handle_error|capacity_overflow",
+  functions=["packet_crypto::decrypt_packet_body"], pre=dpb_pre, post=dpa_post,
+  bounds="every header and key state, every verdict of the AEAD (opaque): a connection-fatal transport error (reserved bits, illegal key update) and an accepted packet number are returned only on paths on which PacketKey::decrypt was called and succeeded - a forged or corrupted packet is dropped without effect, whatever its header bits say",
+  replay=("conn_unauthentic_packet_inert_native", lambda m: [dict(first=0x48), dict(first=0x50), dict(first=0x58), dict(first=0x40)]))
